@@ -2041,3 +2041,35 @@ C01_SPACE_N_TREATMENTS = dict(
     _SPACE_C01, func="n_unique_treatments", name="src_space_n_unique_treatments",
     attr_vars={"self.treatment_mapping": "self_treatment_mapping"}, params=[("self_treatment_mapping", _TRIPLE)], prims=_SPACE_NUMPY)
 ALL += [C01_SPACE_N_SAMPLES, C01_SPACE_N_TREATMENTS]
+
+# ---- C07: distance_calculation.py, whole functions (vocabulary: Model/Chunks.v, Model/DistMat.v) ----
+# An iterator over the generator lower_triangular_indices(n) is the list of the items it has not produced yet (the
+# translated generator's list at creation).  Trusted: islice's two uses (one library call each), the translator.
+_C07 = dict(file="src/batchie/distance_calculation.py", out="SrcChunks.v", imports="Model.Chunks")
+_PAIRS = "list (Z * Z)"
+C07_CONSUME = dict(
+    _C07, func="consume", name="src_consume", pyparams=["iterator", "n"],
+    params=[("iterator", _PAIRS), ("n", "Z")], returns=_PAIRS, vars={},
+    # collections.deque(islice(it, n), maxlen=0) advances `iterator`; the function returns None: its denotation is the
+    # iterator's state afterwards
+    effects=[("collections.deque(islice(iterator, n), maxlen=0)", "iterator'", "!islice_drop {state} n'")],
+    implicit_return="{iterator}",
+)
+C07_N_LOWER = dict(
+    _C07, func="get_number_of_lower_triangular_indices", name="src_get_number_of_lower_triangular_indices",
+    pyparams=["n"], params=[("n", "Z")], returns="Z", vars={}, zero_division=10,
+)
+C07_CHUNK = dict(
+    _C07, func="get_lower_triangular_indices_chunk", name="src_get_lower_triangular_indices_chunk",
+    pyparams=["n", "chunk_index", "n_chunks"], params=[("n", "Z"), ("chunk_index", "Z"), ("n_chunks", "Z")],
+    returns=_PAIRS, assert_error=9, zero_division=10,
+    vars={"n_indices": "Z", "chunk_size": "Z", "remainder": "Z", "start_index": "Z", "end_index": "Z", "g": _PAIRS},
+    prims=[
+        # the three callees run their translations (above / C07_LOWER_TRI)
+        ("get_number_of_lower_triangular_indices(__n)", "!src_get_number_of_lower_triangular_indices {n}", "Z", {"n": "Z"}),
+        ("lower_triangular_indices(__n)", "!src_lower_triangular_indices {n}", _PAIRS, {"n": "Z"}),
+        ("list(islice(__g, __k))", "!islice_take {g} {k}", _PAIRS, {"g": _PAIRS, "k": "Z"}),
+    ],
+    effects=[("consume(g, __k)", "g'", "!src_consume {state} {k}")],
+)
+ALL += [C07_CONSUME, C07_N_LOWER, C07_CHUNK]
